@@ -65,6 +65,10 @@ class ExprMixin:
 
     # ------------------------------------------------------------ truthiness
     def truthy(self, v: V):
+        for h in getattr(self.world, "truthy_hooks", ()):
+            r = h(self, v)
+            if r is not None:
+                return r
         if isinstance(v, VBool):
             return v.term
         if isinstance(v, VInt):
@@ -130,6 +134,8 @@ class ExprMixin:
 
     def ev_Name(self, n, env):
         v = env.lookup(n.id)
+        if isinstance(v, VPoison):
+            raise OutOfSubset(f"loop-carried variable `{n.id}` is read before being assigned and has no declared type (line {n.lineno})")
         if v is not None:
             return v
         return self.world.resolve_global(self, env.module, n.id)
@@ -537,6 +543,9 @@ class ExprMixin:
         return i
 
     def getitem(self, base: V, idx: V) -> V:
+        h = self.world.getitem_hook(self, base, idx)
+        if h is not None:
+            return h
         if isinstance(base, (VTuple, VList)):
             it = self.as_int_term(idx)
             if it is None:
